@@ -106,7 +106,7 @@ def gen(rng, tier, index):
             ops.append({"op": "write_nc", "id": nid, "data": _payload(rng, i, "NC-" + stem, as_bytes, idclass == "exotic-payload")})
         elif r < 0.66:
             # log names unrelated to, equal to, or containing a record's stem
-            lname = rng.choice([f"log{i}.log", f"{stem}.log", f"{stem}.{suffix}.log", "run.log"])
+            lname = rng.choice([f"log{i}.log", f"{stem}.log", f"{stem}.{suffix}.log", "run.log", stem, ident])
             ops.append({"op": "write_log", "id": lname, "data": f"log {i} {stem}\n"})
         elif r < 0.78:
             if rng.random() < 0.3:
